@@ -140,7 +140,12 @@ func runSYM(c *Ctx, s *Sink) {
 			}
 			if v, isC := constInt(info, ix.Index); isC && v >= 256 {
 				for _, anc := range stack {
-					if _, isIf := anc.(*ast.IfStmt); isIf {
+					switch a := anc.(type) {
+					case *ast.IfStmt:
+						ok = true
+					case *ast.CaseClause:
+						// a clause of a tagless switch is a condition too (the default clause included: it is the negation of the others)
+						_ = a
 						ok = true
 					}
 				}
